@@ -271,3 +271,13 @@ PROPS["C20"]["claim"] = PROPS["C20"]["explanation"] = PROPS["C20"]["explanation"
     "verifying the gated text exposed defect D7 (underflow in touching_last_remove on an empty line in completion mode), now fixed.")
 PROPS["C04"]["claim"] = PROPS["C04"]["explanation"] = PROPS["C04"]["explanation"] + (
     " touching_last_remove no longer needs a precondition: the empty-line underflow (D7) was a reachable panic and is fixed.")
+
+# ---- completion hooks and candidate list under contract
+PROPS["C14"]["not_covered"] = ["Complete::complete (filtering of the collected candidates against the typed word: arg_matches / cmd_matches are format!/strip_prefix code)", "check_complete / rendering for the shells", "ParseCommand's and ParseOrElse's completion passes", "user completers (ParseComp) and their values"]
+PROPS["C14"]["claim"] = PROPS["C14"]["explanation"] = PROPS["C14"]["explanation"] + (
+    " Candidate collection is proved on the real bodies (autocomplete configuration): every completion hook (push_flag, push_argument, push_metavar, push_command, push_pos_sep, clear_comps; "
+    "Complete::swap_comps, State::swap_comps_with) changes nothing but the candidate list, appends exactly one candidate carrying the item's declared first names / metavariable / command name at the current "
+    "command depth (none for an item without a name), and does nothing outside completion mode; ParseHide::eval is proved to leave the candidate list exactly as it was "
+    "(lemma.C14.hidden_items_offer_no_candidates), so hidden items are never offered; completion mode never starts or ends in the middle of a run (trait invariant).")
+PROPS["C20"]["claim"] = PROPS["C20"]["explanation"] = PROPS["C20"]["explanation"] + (
+    " The completion hooks themselves are no longer assumed: their real bodies are proved to be inert when `comp` is None.")
